@@ -355,7 +355,22 @@ impl<'r> Gen<'r> {
             return None;
         }
         if rng.chance(self.w.p_bad_text, 1000) {
-            return Some(match rng.below(3) {
+            return Some(match rng.below(4) {
+                3 if matches!(kind, S::Zinc | S::Json) => {
+                    // a large document (past 64 KiB) that is broken at its very end or in the middle
+                    let items = 9000 + rng.usize(9000);
+                    let mut d: Vec<u8> = Vec::with_capacity(items * 8);
+                    d.push(b'[');
+                    for i in 0..items {
+                        d.extend_from_slice(if kind == S::Zinc { b"12345, " } else { b"12345 , " });
+                        if i == items / 2 && rng.chance(1, 2) {
+                            d.extend_from_slice(b"@@@ ??? ");
+                        }
+                    }
+                    d.extend_from_slice(if rng.chance(1, 2) { b"1" } else { b"1]]" });
+                    d
+                }
+                3 => long_text(rng),
                 0 => invalid_utf8(rng),
                 1 => long_text(rng),
                 _ => match kind {
@@ -685,11 +700,13 @@ pub const FIXTURE: &[(K, &str)] = &[
     (K::Dict, "{}"),
     (K::List, "[]"),
     (K::List, "[{a:1},N,\"s\",{b:2}]"),
+    (K::Time, "23:59:60.5"),
+    (K::DateTime, "2021-01-15T12:00:00Z London"),
     (K::Grid, "ver:\"2.0\" m:\"meta\"\nsite dis:\"Site col\",id,a,empty\nM,@r1,1,\nM,@r2,2,\n"),
 ];
-const FIX_OUT: i64 = 26; // an initialised (Null) handle used as `result`
-const FIX_NEW: i64 = 27; // empty slot for returned handles
-const FIX_OUT_HEAP: i64 = 28; // a handle owning heap data, also used as `result`
+const FIX_OUT: i64 = 28; // an initialised (Null) handle used as `result`
+const FIX_NEW: i64 = 29; // empty slot for returned handles
+const FIX_OUT_HEAP: i64 = 30; // a handle owning heap data, also used as `result`
 
 pub fn fixture_ops() -> Vec<Op> {
     let mut ops = Vec::new();
@@ -1055,8 +1072,8 @@ pub fn sweep_alias(prop: &str) -> Vec<Case> {
                         // the aliased handle is used again afterwards: encoded, and as an entry of a new list
                         let after = vec![
                             Op::new(0, "haystack_value_to_zinc_string").h(&[slot, 1]),
-                            Op::new(0, "haystack_value_make_list").h(&[29]),
-                            Op::new(0, "haystack_value_push_list_entry").h(&[29, slot]),
+                            Op::new(0, "haystack_value_make_list").h(&[31]),
+                            Op::new(0, "haystack_value_push_list_entry").h(&[31, slot]),
                         ];
                         let mut call = vec![op];
                         call.extend(after);
